@@ -197,7 +197,7 @@ impl Prop for C17 {
     type Case = Case;
     const ID: &'static str = "C17";
     const NUM: u64 = 17;
-    const RULE: &'static str = "(operation, inputs, k, repetitions): operation in {AdjacencyList::{complement, complete, degree_sequence, is_semicomplete, union}, AdjacencyMap::union, AdjacencyMap::{random_tournament, erdos_renyi}}; k in 1..=16 CPUs set with sched_setaffinity immediately before the call; row counts in the classes k-1, k, k+1, 2k+1, 3k-1, 5k+3 and free (up to 60 quick / 130 thorough); AdjacencyMap::union operands with key sets drawn from 0..64 so that equal keys fall on, before and after merge-path partition points; every case is executed 3 (quick) / 10 (thorough) times; the oracle is the single-threaded definition from the model, the same for every k and repetition; enum leg: AdjacencyList::complete(n) and complement(path(n)) for every n in 1..=64 at every k in 1..=16. Non-trivial = k >= 2 was in effect, row count > k and not a multiple of ceil(rows/k); distinct = distinct serialised case.";
+    const RULE: &'static str = "(operation, inputs, k, repetitions): operation in {AdjacencyList::{complement, complete, degree_sequence, is_semicomplete, union}, AdjacencyMap::union, AdjacencyMap::{random_tournament, erdos_renyi}}; k in 1..=16 CPUs set with sched_setaffinity immediately before the call; row counts in the classes k-1, k, k+1, 2k+1, 3k-1, 5k+3 and free (up to 60 quick / 130 thorough); AdjacencyMap::union operands with key sets drawn from 0..64 so that equal keys fall on, before and after merge-path partition points; every case is executed 3 (quick) / 10 (thorough) times; the oracle is the single-threaded definition from the model, the same for every k and repetition; enum leg: AdjacencyList::complete(n) and complement(path(n)) for every n in 1..=64 at every k in 1..=16. A low-rate 'huge' leg adds digraphs of 200..3100 vertices with O(n) arcs (paths, circuits, stars, wheels, trees, one row of exactly 255/256/257 out-neighbours, arcs in the last rows, complete below 300). Non-trivial = k >= 2 was in effect, row count > k and not a multiple of ceil(rows/k); distinct = distinct serialised case.";
     const ASSUMPTIONS: &'static [&'static str] = &[
         "natively only the CPU count and repetition vary the interleaving; the schedule itself is owned only in the Miri leg (thorough tier, see DESIGN.md)",
         "for the seeded AdjacencyMap generators only validity and repeatability within one configuration are asserted",
